@@ -34,27 +34,27 @@ Theorem C08_conforms_refuted : ~ C08_conforms_full.
 Proof. exact conforms_refuted. Qed.
 Print Assumptions C08_conforms_refuted.
 
-(* one witness per known class, each well-formed, each inside exactly its class *)
-Theorem C08_witness_D13 :
-  wf_tree with_prefix d13_tree = true /\ model_conforms with_prefix d13_tree (mkpos 0 20) = false /\
-  known with_prefix d13_tree = [13].
-Proof. exact conforms_refuted_d13. Qed.
-Print Assumptions C08_witness_D13.
-
-Theorem C08_witness_D14 :
-  wf_tree plain d14_tree = true /\ model_conforms plain d14_tree (mkpos 0 17) = false /\
-  known plain d14_tree = [14].
-Proof. exact conforms_refuted_d14. Qed.
-Print Assumptions C08_witness_D14.
-
+(* one witness per remaining known class of the token tree, each well-formed, each inside exactly
+   its class.  (The former witnesses of D13 / D14 / D23 conform since the fix: commits in /repo:
+   Examples former_d13_now_conforms, former_d14_now_conforms, former_d23_now_conforms.) *)
 Theorem C08_witness_D15 :
   wf_tree plain d15_tree = true /\ model_conforms plain d15_tree (mkpos 0 9) = false /\
   known plain d15_tree = [15].
 Proof. exact conforms_refuted_d15. Qed.
 Print Assumptions C08_witness_D15.
 
-Theorem C08_witness_D23 :
-  wf_tree plain d23_tree = true /\ model_conforms plain d23_tree (mkpos 0 19) = false /\
-  known plain d23_tree = [23].
-Proof. exact conforms_refuted_d23. Qed.
-Print Assumptions C08_witness_D23.
+Theorem C08_witness_D27 :
+  wf_tree plain d27_tree = true /\ model_conforms plain d27_tree (mkpos 0 6) = false /\
+  known plain d27_tree = [27].
+Proof. exact conforms_refuted_d27. Qed.
+Print Assumptions C08_witness_D27.
+
+(* the sheets of the repaired classes now conform (regression anchors) *)
+Theorem C08_fixed_D13_D14_D23_conform :
+  model_conforms with_prefix d13_tree (mkpos 0 20) = true /\
+  model_conforms with_prefix d14_tree (mkpos 0 17) = true /\
+  model_conforms plain d23_tree (mkpos 0 19) = true.
+Proof.
+  split; [apply former_d13_now_conforms | split; [apply former_d14_now_conforms | apply former_d23_now_conforms]].
+Qed.
+Print Assumptions C08_fixed_D13_D14_D23_conform.
